@@ -299,6 +299,10 @@ func ListToFunc(s *Scope, list List, depth int) Object {
 				if strings.EqualFold("lambda", string(sym)) {
 					lambdaDef := ListToFunc(s, ta, depth+1)
 					lc := s.Eval(lambdaDef, depth).(*Lambda)
+					// The function replaces the list and is evaluated again
+					// in other scopes so s must not be kept as the closure.
+					lc.Closure = nil
+					lc.inline = true
 					return &Dynamic{
 						Function: Function{
 							Self: lc,
@@ -381,6 +385,7 @@ func CompileList(list List) (f Object) {
 						s := NewScope()
 						lambdaDef := ListToFunc(s, ta, 0)
 						lc := s.Eval(lambdaDef, 0).(*Lambda)
+						lc.inline = true
 						return &Dynamic{
 							Function: Function{
 								Self: lc,
